@@ -1,6 +1,6 @@
 # props/C06.py — fixed_vector stays inside its storage and never exposes unfilled slots
 import itertools
-from props.vec_common import VecCheck, alphabet, exhaustive, fault_cases, random_case, malformed_cases, small_alphabet_cases
+from props.vec_common import alias_cases, VecCheck, alphabet, exhaustive, fault_cases, random_case, malformed_cases, small_alphabet_cases
 
 
 class C06(VecCheck):
@@ -23,24 +23,28 @@ class C06(VecCheck):
                   "types with a live set and double-destroy trap, copyable / move-only / throwing on the k-th assignment, under ASan+LSan) and "
                   "real memory safety of the C++ (ASan/UBSan on the driven cases). Trusted: Coq kernel, ExtrOcamlBasic extraction, OCaml compiler, "
                   "the differential harness; assumed: std::unique_ptr<T[]>/make_unique, element types whose assignment either completes or "
-                  "throws before changing anything, ranges passed to insert/push_back do not alias the container itself. "
+                  "throws before changing anything. "
                   "The correspondence is bounded-exhaustive + sampled, not proved.")
     rule = ("operation sequences for the pool interpreter: (i) exhaustive sequences of depth 3 (quick) / 3 and 4 (thorough) over every mutating "
             "operation with every position 0..capacity and values {1,2,3}, capacities 0..3, copyable and move-only element types, full state printed "
             "after every step (so all prefixes are covered); (ii) fault enumeration: every element-assigning operation x every fault position "
             "0..capacity+1 x every fill level x a follow-up operation, copyable-throwing and move-only-throwing element types; (iii) random "
             "sequences of length 30 over three objects, capacities 0..5, values 1..9, ~3% malformed operations, 15% fault plans in the throwing "
-            "variants; (iv) malformed stream; (v) corpus of the pre-repair witnesses. A case is non-trivial when some object holds at least one "
+            "variants; (iv) malformed stream; (v) corpus of the pre-repair witnesses; (vi) aliasing arguments: emplace(begin()+pos, v[k]) for every k relative to pos, emplace_back/insert/push_back(v[k]), insert/push_back of every short sub-range of the SAME vector at every position, v = v, v = std::move(v), from every fill level with pairwise distinct values, alone, before/after an ordinary operation and in pairs. A case is non-trivial when some object holds at least one "
             "element at some step; distinct = distinct case line.")
     modelled_note = ("modelled, not verified: object lifetimes and std::unique_ptr<T[]> (all `capacity` elements live as long as the array), element "
                      "assignment = value transfer (move leaves a moved-from element), a throwing assignment throws before changing anything, "
-                     "iterator ranges handed to insert/push_back do not alias the target; 'no leak / no double destruction' is exercised by the "
+                     "arguments may alias the container (element references, sub-ranges of the same vector: modelled as reads of the own storage at the moment the code reads them); 'no leak / no double destruction' is exercised by the "
                      "driver's instance-counting element types under ASan+LSan only, not proved")
 
     def cases(self, tier, rng):
         caps = range(4)
         for c in malformed_cases():
             yield c, "malformed"
+        for c in alias_cases("C", range(5), (0, 1, 2, 3) if tier == "quick" else range(5)):
+            yield c, "alias-C"
+        for c in alias_cases("T", range(4), (), faults=True):
+            yield c, "alias-faults-T"
         for v in ("T", "U"):
             for c in fault_cases(v, caps, deep=True):
                 yield c, "faults-" + v
